@@ -9,7 +9,7 @@ from .state import PyList, PyDict
 
 
 def unwrap(x):
-    if isinstance(x, (ObjView, SeqView, MapView, OptView, MatView)):
+    if isinstance(x, (ObjView, SeqView, MapView, OptView, MatView, CMatView)):
         return x._v
     if isinstance(x, tuple):
         return tuple(unwrap(y) for y in x)
@@ -27,6 +27,8 @@ def wrap(ex, st, v):
         return OptView(ex, st, v)
     if isinstance(v, ty.MatV):
         return MatView(ex, st, v)
+    if isinstance(v, ty.CMatV):
+        return CMatView(ex, st, v)
     if isinstance(v, tuple):
         return tuple(wrap(ex, st, x) for x in v)
     if isinstance(v, PyList):
@@ -193,3 +195,24 @@ class MatView:
     @property
     def arr(self):
         return self._v.arr
+
+
+class CMatView:
+    def __init__(self, ex, st, v: ty.CMatV):
+        self._ex, self._st, self._v = ex, st, v
+
+    @property
+    def re(self):
+        return MatView(self._ex, self._st, self._v.re)
+
+    @property
+    def im(self):
+        return MatView(self._ex, self._st, self._v.im)
+
+    @property
+    def rows(self):
+        return self._v.re.rows
+
+    @property
+    def cols(self):
+        return self._v.re.cols
